@@ -45,6 +45,13 @@ func zzCompactSource(db *DB, ps int) {
 				return err
 			}
 		}
+		// optionally enough large values in the nested bucket to outgrow the destination's initial map
+		// while a transaction that started inside this bucket is being committed
+		for i := 0; i < zz.Param("bigpg", 0); i++ {
+			if err := pg.Put([]byte{'q', byte('a' + i)}, zzVal(3000, 'q')); err != nil {
+				return err
+			}
+		}
 		deep, err := pg.CreateBucket([]byte("deep"))
 		if err != nil {
 			return err
